@@ -151,8 +151,30 @@ pub fn check_conn(or: &mut Oracle, log: &Log, prop: &str, plans: &[ReqPlan], tr:
     let mut mgmt: Vec<u8> = vec![];
     let ids: Vec<u16> = plans.iter().map(|p| p.pre.id).collect();
     let mut per_req: Vec<Vec<&Rec>> = vec![vec![]; plans.len()];
+    let mut mgmt_before_end: Vec<Option<usize>> = vec![None; plans.len()];   // management-reply bytes already written when EndRequest(i) went out
     for r in &recs {
-        match ids.iter().position(|&i| i == r.id) { Some(k) if r.rtype == T_STDOUT || r.rtype == T_STDERR || r.rtype == T_END => per_req[k].push(r), _ => mgmt.extend(r.ser()) }
+        match ids.iter().position(|&i| i == r.id) { Some(k) if r.rtype == T_STDOUT || r.rtype == T_STDERR || r.rtype == T_END => { if r.rtype == T_END && mgmt_before_end[k].is_none() { mgmt_before_end[k] = Some(mgmt.len()); } per_req[k].push(r) }, _ => mgmt.extend(r.ser()) }
+    }
+    // "EndRequest after all pending management replies": a handler that read all its streams to the end had every reply-owing record
+    // of its request parsed before it returned, so those replies precede its EndRequest (replies for UNREAD input legitimately follow)
+    if !faults && prop == "C07" {
+        let mut upto = 0usize;
+        for (i, p) in plans.iter().enumerate().take(hs.len()) {
+            upto += p.owed.len();
+            let reads_everything = role_streams(p.pre.role).iter().all(|s| p.reads_all.contains(s));
+            if let (true, Some(seen)) = (reads_everything && matches!(p.ret, Ret::Ok(..)), mgmt_before_end[i]) {
+                if seen < upto && owed_all.starts_with(&mgmt) { or.fail(format!("request {}: EndRequest was written when only {seen} of the {upto} bytes of management replies owed so far had gone out (the handler had read all input)", i + 1), log.replay_block(), format!("{prop}:endrequest-before-replies")); break; }
+            }
+        }
+    }
+    // completeness: when every served request ran to a normal end and everything the client sent was parsed by someone (a keep-conn
+    // request's unread rest is parsed by the next parse_request; a final request without keep-conn whose handler read all its streams
+    // to the end left nothing unparsed), every owed reply must have been written by the time the task stalls or returns
+    let all_ok = !faults && hs.len() == served && he.len() == hs.len() && (tr.fin == "STALL" || tr.fin == "RET")
+        && plans.iter().take(served).all(|p| matches!(p.ret, Ret::Ok(..)) && (p.pre.flags & 1 == 1 || role_streams(p.pre.role).iter().all(|s| p.reads_all.contains(s))));
+    if all_ok && prop == "C07" {
+        if mgmt.len() < owed_all.len() && owed_all.starts_with(&mgmt) { or.fail(format!("only {} of the {} bytes of owed management replies were written although every request ended normally and all input was parsed", mgmt.len(), owed_all.len()), log.replay_block(), format!("{prop}:replies-missing")); }
+        or.count("connections_checked_for_reply_completeness");
     }
     if !owed_all.starts_with(&mgmt) && !faults { or.fail(format!("management replies written ({} bytes) are not the owed replies in arrival order ({} bytes owed)", mgmt.len(), owed_all.len()), log.replay_block(), format!("{prop}:replies")); }
     for (i, p) in plans.iter().enumerate() {
@@ -557,6 +579,17 @@ pub fn run_c12(ctx: &mut Ctx) {
                 if e.starts_with("HS(") { hi += 1; }
                 if let Some(rest) = e.strip_prefix("R=") { let data = unhex(rest.split(':').nth(1).unwrap_or("-")); if let Some(p) = plans.get(hi.max(1) - 1) { if !p.contents.iter().any(|(_, c)| c == &data || c.ends_with(&data)) { or.fail(format!("fault {kind}: read-to-end succeeded with {} bytes although the stream was cut short", data.len()), log.replay_block(), "C12:short-read-ok".into()); } } }
             }
+            // ... and that error is the unexpected-EOF error (for an EOF of the transport) or the transport's own error (for a failed
+            // read) — not some other kind (the connection's writes are all benign in these runs, so no write error can surface on the read side)
+            if kind.starts_with("eof@") || kind.starts_with("readerr") {
+                let want: &[&str] = if kind.starts_with("eof@") { &["eof"] } else if kind.starts_with("readerrA") { &["aborted"] } else { &["tread"] };
+                for e in &tr.events {
+                    let Some((op, k)) = e.split_once('!') else { continue };
+                    if !matches!(op, "R" | "r" | "f" | "w") { continue; }
+                    let k = k.split(':').next().unwrap_or("");
+                    if !want.contains(&k) { or.fail(format!("fault {kind}: an input-side operation of the handler (`{op}`) failed with `{k}` instead of `{}`", want[0]), log.replay_block(), "C12:wrong-error-kind".into()); break; }
+                }
+            }
             // after a failed write nothing more is accepted when the handler propagates errors
             if kind.starts_with("write") {
                 let mut failed = false; let mut in_ignoring_handler = false; let mut hi2 = 0usize;
@@ -591,7 +624,10 @@ pub fn c14_conn(ctx: &mut Ctx, log: &mut Log, im: &mut Impl, or: &mut Oracle) {
         let b = *rng.pick(&[128usize, 1024]);
         let plans: Vec<ReqPlan> = (0..k).map(|_| { let nl = rng.below(2); gen_req(&mut rng, true, nl, mc, b, false) }).collect();
         let rd = rd_script(&mut rng, 40); let wr = wr_script(&mut rng, 40, false);
-        let base_op = conn_op(&plans, b, mc, "pend", &rd, &wr, "-", "none", true);
+        // half of the connections run on a transport whose poll_flush is sometimes Pending: every await point of the connection task
+        // (not only reads and writes) splits a scheduling step, and shutdown may be requested in between
+        let fl = if ci % 2 == 0 { "-".to_string() } else { let n = 1 + rng.usize_below(8); (0..n).map(|_| if rng.chance(1, 2) { "P" } else { "O" }).collect::<Vec<_>>().join(",") };
+        let base_op = conn_op(&plans, b, mc, "pend", &rd, &wr, &fl, "none", true);
         log.case(&format!("c14-{ci}-base"));
         let base = ex(log, im, &base_op);
         let trb = parse_trace(&base);
@@ -599,7 +635,7 @@ pub fn c14_conn(ctx: &mut Ctx, log: &mut Log, im: &mut Impl, or: &mut Oracle) {
         let stops: Vec<usize> = if thorough { (0..=npolls + 1).collect() } else { let mut v: Vec<usize> = (0..=npolls + 1).step_by((npolls / 10).max(1)).collect(); v.extend([0, 1, npolls, npolls + 1]); v.sort(); v.dedup(); v };
         for s in stops {
             log.case(&format!("c14-{ci}-stop{s}"));
-            let o = ex(log, im, &conn_op(&plans, b, mc, "pend", &rd, &wr, "-", &s.to_string(), true));
+            let o = ex(log, im, &conn_op(&plans, b, mc, "pend", &rd, &wr, &fl, &s.to_string(), true));
             let tr = parse_trace(&o);
             if tr.fin != "RET" { or.fail(format!("shutdown requested before poll {s}: the connection task ended with {} instead of returning", tr.fin), log.replay_block(), format!("C14:conn-fin-{}", tr.fin)); }
             let mark = tr.events.iter().position(|e| *e == format!("|{s}"));
